@@ -338,6 +338,19 @@ func (s *Spec) Ops(st *explore.State) []explore.Op {
 			continue
 		}
 		ops = append(ops, s.cancelOp(id, r.Sender, false), s.cancelOp(id, "mallory", false), s.feeOp(id, r.Sender, false))
+		// somebody else adds to the fee (allowed: it costs that account the added fee, the entry stays its creator's),
+		// and a fee offered in a different token than the entry's (never allowed)
+		other := "u2"
+		if r.Sender == "u2" {
+			other = "u1"
+		}
+		ops = append(ops, s.feeOp(id, other, false))
+		for _, t := range s.Tokens {
+			if t != r.Tok {
+				ops = append(ops, s.feeOtherTokenOp(id, r.Sender, t))
+				break
+			}
+		}
 		if s.EVM {
 			ops = append(ops, s.cancelOp(id, r.Sender, true), s.feeOp(id, r.Sender, true))
 		}
@@ -548,6 +561,29 @@ func (s *Spec) cancelOp(id uint64, who string, evm bool) explore.Op {
 			if s.toks[r.Tok].Kind == "external" {
 				m.Escrow[r.Chain+"/"+r.Tok] -= r.Amt + r.Fee
 			}
+		}
+	}}
+}
+
+// feeOtherTokenOp offers a fee increase in the bridge denomination of a token other than the entry's own.
+func (s *Spec) feeOtherTokenOp(id uint64, who, otherTok string) explore.Op {
+	return explore.Op{Name: fmt.Sprintf("IncreaseFee(%d,%s,+1 %s)", id, who, otherTok), Run: func(c *explore.State) {
+		m := c.Model.(*Model)
+		r := m.Recs[id]
+		a := s.w.A(who)
+		tk := s.toks[otherTok]
+		denom := tk.Bridge[r.Chain]
+		if s.w.App.BankKeeper.GetBalance(c.Ctx, a.Acc(), denom).Amount.IsZero() {
+			denom = tk.Base
+		}
+		if s.w.App.BankKeeper.GetBalance(c.Ctx, a.Acc(), denom).Amount.IsZero() {
+			c.Outcome = "n/a"
+			return
+		}
+		dr := s.w.Deliver(c.Ctx, &cctypes.MsgIncreaseBridgeFee{ChainName: r.Chain, TransactionId: id, Sender: a.Bech(), AddBridgeFee: sdk.NewInt64Coin(denom, 1)})
+		res(c, dr.OK())
+		if dr.OK() {
+			c.Violate("fee-increase-costs-exactly-the-added-fee", s.sig("fee-increase-paid-in-another-token"), fmt.Sprintf("transfer %d carries %s; a fee increase offered as 1 %s was accepted", id, r.Tok, denom))
 		}
 	}}
 }
